@@ -110,3 +110,15 @@ VARIANTS += [
     V("clock-guard-strict-only", BS, GUARD, "                if next_t < curr_t:\n", rule="R12.9"),
     V("twin-clock-guard-spelled-le", BS, GUARD, "                if next_t <= curr_t:\n", expect="silent"),
 ]
+
+APPEND = "            ys.append(interp.linear_interp(t0=prev_t, y0=prev_y, t1=curr_t, y1=curr_y, t=out_t))"
+BUF_MORE = (("        for out_t in ts[1:]:\n", "        for i, out_t in enumerate(ts[1:], start=1):\n"),
+            (APPEND, "            ys[i] = interp.linear_interp(t0=prev_t, y0=prev_y, t1=curr_t, y1=curr_y, t=out_t)"),
+            ("        return torch.stack(ys, dim=0), curr_extra", "        return ys, curr_extra"))
+VARIANTS += [
+    # round-6 seed: the output tensor preallocated from ts (its dtype, not y0's)
+    V("output-buffer-allocated-from-ts", BS, "        ys = [y0]\n", "        ys = ts.new_empty((len(ts), *y0.shape))\n        ys[0] = y0\n",
+      rule="R12.3", more=BUF_MORE),
+    V("twin-output-buffer-allocated-from-y0", BS, "        ys = [y0]\n", "        ys = y0.new_empty((len(ts), *y0.shape))\n        ys[0] = y0\n",
+      expect="silent", more=BUF_MORE),
+]
